@@ -30,13 +30,15 @@ VARIABLES ph, st
 Init == ph = "start" /\ st = <<>>
 \* two levels so that the 48 (outer, rotation, direction, order) choices are spread over the workers
 Pick == /\ ph = "start" /\ ph' = "mid"
-        /\ \E o \in Outer, k \in 0..2, rev \in BOOLEAN, swap \in BOOLEAN : st' = <<o, k, rev, swap>>
+        /\ \E o \in Outer, k \in 0..2, rev \in BOOLEAN, swap \in BOOLEAN, dup \in BOOLEAN : st' = <<o, k, rev, swap, dup>>
 Emit == /\ ph = "mid" /\ ph' = "case"
         /\ \E t \in {x \in Tris : Idx(x) % Step = 0} :
              LET o == st[1] k == st[2] rev == st[3] swap == st[4]
-                 inner == IF rev THEN RevR(Rot(t,k)) ELSE Rot(t,k)
+                 inner0 == IF rev THEN RevR(Rot(t,k)) ELSE Rot(t,k)
+                 \* the start vertex written twice (consecutive duplicates do not change the point set or the verdict)
+                 inner == IF st[5] THEN <<inner0[1]>> \o inner0 ELSE inner0
                  rings == IF swap THEN <<Shell, inner, o>> ELSE <<Shell, o, inner>>
-             IN /\ st' = <<o, k, rev, swap, t>>
+             IN /\ st' = <<o, k, rev, swap, st[5], t>>
                 /\ Assert(PolyValid(rings) = PolyValid(<<Shell, o, Rot(t,0)>>), "SpecValid depends on the representation")
                 /\ PrintT(ToJson([k |-> "CASE", kind |-> "geom", w |-> PolyWKT(rings)]))
 Next == Pick \/ Emit
